@@ -47,6 +47,10 @@ CHECKS = {
    technique="TLA+ list-of-values model of a reused column (TLC exhaustive to 7 operations, with a stale-dictionary variant for non-vacuity) + every bounded operation history executed on real column objects, replayed by TLC in the model with every encode output decoded by the Wire.tla reference decoder (trace validation)",
    text="24 column kinds (all with hidden state and representatives of the others) x every history of length 3 (quick) / 4 (thorough) over 10 operations plus random histories up to 45 operations, default and purego builds; after every operation the row count, and for every encode the bytes, are validated against the model's current contents.",
    note="Trusted: TLC; decode is exercised only into empty (fresh or reset) columns; valid decode input is produced by a fresh column's encoder (validated by C01)."),
+ "C17": dict(engine="Messages", category="model_checking", design_ref="DESIGN.md §5 C17",
+   technique="TLA+ field tables of every protocol message with an independent table of feature revisions (TLC: encoding changes only at thresholds, over every revision) + byte-exact comparison by TLC of what the library's EncodeAware produced with EncMsg of the specification, decode-back and prefix refusal (trace validation)",
+   text="Nine message kinds with random field values at every representative revision (quick: each threshold, both neighbours, interval midpoints; thorough: literally every revision 50000..54500, default and purego builds): TLC requires bytes = EncMsg(kind, rev, fields), every present field returned by DecodeAware with nothing left over, every proper prefix refused.",
+   note="Trusted: TLC; integers are handed to the specification in wire form produced with encoding/binary; the library's documented decode refusals are excluded from the decode half."),
  "C14": dict(engine="Writer", category="model_checking", design_ref="DESIGN.md §5 C14",
    technique="TLA+ model of the vectored writer with explicit backing arrays (TLC exhaustive) + every bounded operation sequence executed on the real proto.Writer and validated by TLC (trace validation)",
    text="Exhaustive at the stated sequence length over a 12-operation alphabet, plus random long sequences; each Flush's delivered bytes are compared by TLC with the specification's pending contents.",
@@ -90,6 +94,8 @@ def main():
              "kind_free_text": "TLA+ functional specification of the native format (varints, strings, LE integers, column layouts for a type AST, state prefixes, LowCardinality, block header); MC_Wire design lemma, Trace_Wire trace validation"},
             {"name": "ColumnHistory", "path": "spec/ColumnHistory.tla", "serves_properties": ["C16"],
              "kind_free_text": "TLA+ list-of-values model of column reuse; MC_ColumnHistory*.cfg, Trace_ColumnHistory (uses Wire.tla to decode encode outputs)"},
+            {"name": "Messages", "path": "spec/Messages.tla", "serves_properties": ["C17", "C02", "C13"],
+             "kind_free_text": "TLA+ field tables of the protocol messages over Features.tla (independent revision thresholds); MC_Messages, Trace_Messages"},
             {"name": "Frames", "path": "spec/Frames.tla", "serves_properties": ["C05"],
              "kind_free_text": "TLA+ model of compress.Reader over abstract frame streams with alteration classes; MC_Frames*.cfg, Trace_Frames"},
             {"name": "Pool", "path": "spec/Pool.tla", "serves_properties": ["C11", "C12"],
